@@ -2023,11 +2023,22 @@ def _execute_func(func: PipeFunc, func_args: dict[str, Any], lazy: bool) -> Any:
         raise  # pragma: no cover
 
 
-def _names(nodes: Iterable[PipeFunc | str]) -> tuple[str, ...]:
+def _names(
+    nodes: Iterable[PipeFunc | str],
+    graph: nx.DiGraph,
+    consumers: list[PipeFunc],
+) -> tuple[str, ...]:
     names: list[str] = []
     for n in nodes:
         if isinstance(n, PipeFunc):
-            names.extend(at_least_tuple(n.output_name))
+            # Only the outputs that the already expanded functions consume are arguments
+            used = {
+                arg
+                for c in consumers
+                if graph.has_edge(n, c)
+                for arg in at_least_tuple(graph.edges[n, c]["arg"])
+            }
+            names.extend(used)
         else:
             assert isinstance(n, str)
             names.append(n)
@@ -2064,7 +2075,7 @@ def _compute_arg_mapping(
         if n not in replaced and not isinstance(n, _Bound | _Resources)
     ]
     deps = _unique(args + preds)
-    deps_names = _names(deps)
+    deps_names = _names(deps, graph, [*replaced, node])
     if deps_names in arg_set:
         return
     arg_set.add(deps_names)
